@@ -7,16 +7,16 @@ C11 — Automatic mask minimises the documented penalty over all eight masks.
                        `u32::MAX` start value is harmless because every score is below it.
 * `C11_forced`       : a forced mask overrides the selection.
 * `C11_masks_order`  : the candidates are the eight ISO masks 0..7, each once (tier K on `MASKS`).
-* `C11_percent`      : `PERCENT_SCORE[p] = 10 * k`, k = 5%-steps of p away from the 45..54 band (tier K).
+* `C11_percent`      : (Props/C11Percent.lean) `PERCENT_SCORE[p] = 10 * k`, k = 5%-steps of p away from the 45..54 band (tier K).
 * ranking score = documented penalty of the very candidate (rows AND columns of the masked
   matrix): `Proofs/ScoreSound.lean` (`line` = runs + windows, `squares` = blocks).
 -/
-import FastQr.Finite.TablesMisc
+import FastQr.Finite.TablesMasks
 import FastQr.Proofs.Lift
 import FastQr.Model.Build
 
 namespace FastQr.Props.C11
-open FastQr Model Spec Finite Proofs
+open FastQr Model Finite Proofs
 
 /-- invariant of the selection fold -/
 theorem select_fold (cs : List (Nat × Nat)) (best : Nat × Nat) :
@@ -76,10 +76,6 @@ theorem C11_select_min (cs : List (Nat × Nat)) (first : Nat) (hne : cs ≠ [])
 
 theorem C11_masks_order : T.masksOrder = [0, 1, 2, 3, 4, 5, 6, 7] := by
   simpa [masksOrderOk] using masksOrderOk_true
-
-theorem C11_percent {p : Nat} (hp : p < 100) :
-    T.percentScore p = 10 * (if p ≥ 50 then (p - 50) / 5 else (49 - p) / 5) := by
-  simpa using all_range percentOk_true p hp
 
 /-- **C11 (forced mask overrides)** -/
 theorem C11_forced (bytes : Array Nat) (l : ECL) (v m : Nat) :
